@@ -158,6 +158,9 @@ def origins(func, module):
             return out
         if isinstance(e, ast.IfExp):
             return expr_origin(e.body) | expr_origin(e.orelse)
+        if isinstance(e, ast.Subscript) and isinstance(e.slice, ast.Slice) and e.slice.lower is None \
+                and e.slice.upper is None and e.slice.step is None:
+            return {'fresh'}          # x[:] is a shallow copy of the container
         if isinstance(e, (ast.Attribute, ast.Subscript)):
             return expr_origin(e.value)
         if isinstance(e, ast.Starred):
